@@ -67,8 +67,11 @@ def run_derive(s, path, stub):
         rec.prf_stub = OrdinalStub(stub)
     with rec.installed():
         try:
-            nd = make_start(s)
-            node = nd.derive_path(list(path))
+            # keep ONLY the derived node: the root and every intermediate node go out of scope (and are
+            # collected) before the node is observed, as in `PrvKeyNode.parse(x).derive_path(p)` one-liners
+            node = make_start(s).derive_path(list(path))
+            import gc
+            gc.collect()
             ob = obs_node(node, s["prv"])
         except Exception:
             ob = None
